@@ -434,13 +434,18 @@ func retain(r *lazyproto.DecodeResult, tag int, what string, all bool) *Retained
 	}
 	if bs, err := r.BytesValues(tag); err == nil {
 		x.bytes = append(x.bytes, bs...)
+		if all && len(bs) > 0 { // safe mode: the OUTER slice handed out is the caller's too: its elements must not be replaced later
+			x.others = append(x.others, retainedSlice{"BytesValues(outer slice)", reflect.ValueOf(bs), fmt.Sprintf("%#v", bs)})
+		}
 	}
 	if s, err := r.StringValue(tag); err == nil {
 		x.strs = append(x.strs, s)
 	}
 	if ss, err := r.StringValues(tag); err == nil {
 		x.strs = append(x.strs, ss...)
-		_ = ss
+		if all && len(ss) > 0 {
+			x.others = append(x.others, retainedSlice{"StringValues(outer slice)", reflect.ValueOf(ss), fmt.Sprintf("%#v", ss)})
+		}
 	}
 	if v, err := r.UInt64Values(tag); err == nil {
 		x.u64 = v
